@@ -17,6 +17,7 @@ import (
 )
 
 type Env struct {
+	raw  map[string]any // named terms not yet evaluated (lazily evaluated: they may refer to observations of earlier steps)
 	defs map[string]Oct
 	obs  []J            // observation of every step executed so far in this vector
 	objs map[string]any // named Go objects created by steps
@@ -24,7 +25,7 @@ type Env struct {
 }
 
 func newEnv(seed int64) *Env {
-	return &Env{defs: map[string]Oct{}, objs: map[string]any{}, seed: seed}
+	return &Env{raw: map[string]any{}, defs: map[string]Oct{}, objs: map[string]any{}, seed: seed}
 }
 
 var termTags = map[string]bool{"dropend": true, "from": true, "lastn": true, "lit": true, "fill": true, "cat": true, "slice": true, "hmac": true, "cbc": true, "cbcdec": true,
@@ -215,10 +216,19 @@ func (e *Env) evalTerm(v any) (Oct, error) {
 			}
 			return append(make(Oct, n-len(x)), x...), nil
 		case "var":
-			o, ok := e.defs[gs(m, "n")]
-			if !ok {
-				return nil, fmt.Errorf("undefined term variable %q", gs(m, "n"))
+			name := gs(m, "n")
+			if o, ok := e.defs[name]; ok {
+				return o, nil
 			}
+			rt, ok := e.raw[name]
+			if !ok {
+				return nil, fmt.Errorf("undefined term variable %q", name)
+			}
+			o, err := e.evalTerm(rt)
+			if err != nil {
+				return nil, fmt.Errorf("term variable %q: %v", name, err)
+			}
+			e.defs[name] = o
 			return o, nil
 		case "ref":
 			r, err := e.lookupRef(m)
